@@ -583,4 +583,344 @@ def rrD : RR := ⟨nDXE, 5, [.name nCXE], 1, 300⟩
 
 end UniEx
 
+
+/-! ## Glue policies; warm caches holding answers (for `Props/C07Universe2`)
+
+    `authReply` serves glue for EVERY host of the universe a referral names.  Real parents serve
+    glue only for hosts inside the delegated zone (in bailiwick); a referral to a zone whose name
+    server lies in another zone carries the NS record alone (a GLUELESS referral).  `authReplyG gp`
+    is `authReply` with the additional section of a referral chosen by a glue policy `gp`
+    (`uniGlue U`: the policy of `authReply`; `uniGlueB U`: in-bailiwick glue only). -/
+
+/-- what the authoritative server `E` replies to `q`, the glue of referrals being `gp nsRrs`. -/
+def authReplyG (gp : List RR → List RR) (E : UEntry) (q : Question) (rd : Bool) : Option Message :=
+  match E.zone.resolve q.name q.qtype with
+  | some (.delegation nsRrs) =>
+    some { header := replyHeader rd false RCODE_NOERROR, questions := [q], answers := [], authority := nsRrs,
+           additional := gp nsRrs }
+  | _ => authReply [] E q rd
+
+/-- the oracle of `cfg` behaves, at the addresses of the universe, like the authoritative servers
+    with glue policy `gp`. -/
+def FaithfulG (gp : List RR → List RR) (U : Universe) (cfg : RecCfg) : Prop :=
+  ∀ E ∈ U, ∀ (q : Question) (rd tcp : Bool),
+    cfg.oracle { addr := .a E.addr, port := cfg.port, tcp := tcp, question := q, recursionDesired := rd } =
+      { delayMs := E.delayMs, reply := authReplyG gp E q rd }
+
+/-- IN-BAILIWICK glue: the address records of the servers of the universe named by an NS record
+    whose owner (the delegated zone) encloses the server's host name. -/
+def uniGlueB (U : Universe) (nsRrs : List RR) : List RR :=
+  (U.filter (fun C => nsRrs.any (fun rr => nsTarget rr == some C.host && C.host.isSubdomainOf rr.name))).flatMap
+    UEntry.glueRRs
+
+/-- the canonical oracle faithful to the universe with glue policy `gp`. -/
+def uniOracleG (gp : List RR → List RR) (U : Universe) (port : Nat) : Oracle := fun ex =>
+  match ex.addr with
+  | .a x =>
+    match U.find? (fun E => E.addr == x) with
+    | some E =>
+      if ex.port = port then { delayMs := E.delayMs, reply := authReplyG gp E ex.question ex.recursionDesired }
+      else { delayMs := EXCHANGE_TIMEOUT_MS, reply := none }
+    | none => { delayMs := EXCHANGE_TIMEOUT_MS, reply := none }
+  | _ => { delayMs := EXCHANGE_TIMEOUT_MS, reply := none }
+
+/-- a recursive resolver (IPv4 only) in front of the universe whose parents serve in-bailiwick glue
+    only. -/
+def uniCfgB (U : Universe) (port : Nat) : RecCfg :=
+  { mode := .onlyV4, port := port, oracle := uniOracleG (uniGlueB U) U port, hostOrder := id }
+
+/-- `UniOK` for a glue policy `gp` that serves at most the glue `authReply` serves. -/
+structure UniOKG (gp : List RR → List RR) (U : Universe) (cfg : RecCfg) : Prop where
+  faithful : FaithfulG gp U cfg
+  sub : ∀ ns g, g ∈ gp ns → g ∈ uniGlue U ns
+  mode : cfg.mode = .onlyV4 ∨ cfg.mode = .preferV4
+  order : ∀ h, cfg.hostOrder [h] = [h]
+  hosts : HostsFunctional U
+  apexes : ∀ E ∈ U, ∀ E' ∈ U, E.apex = E'.apex → E.host = E'.host
+  delay : ∀ E ∈ U, E.delayMs < EXCHANGE_TIMEOUT_MS
+  glueTtl : ∀ E ∈ U, 0 < E.glueTtl
+
+/-- `warmMiss` for a cache that also holds records under the keys `K` (answers of earlier
+    questions): on the way up from a name with labels `ls` to the zone with `stop` labels, neither
+    the local zones nor the cache (NS sets of the zones `V`, keys `K`) know name servers or aliases
+    for the names passed. -/
+def warmMissK (zs : Zones) (V : List UEntry) (K : List (Name × Nat)) (stop : Nat) : List Label → Bool
+  | [] => true
+  | l :: ls =>
+    if (l :: ls).length ≤ stop then true
+    else
+      (match Name.fromLabels (l :: ls) with
+       | some n =>
+         localMiss zs n RT_NS && !K.contains (n, RT_NS) && !K.contains (n, RT_CNAME) && V.all (fun C => C.apex != n)
+       | none => true) && warmMissK zs V K stop ls
+
+/-- the referral (if any) the server `Y` gives for `q` consists of records with a TTL of at least
+    `m` seconds. -/
+def nsTtlOK (m : Nat) (q : Question) (Y : UEntry) : Bool :=
+  match Y.zone.resolve q.name q.qtype with
+  | some (.delegation ns) => ns.all (fun rr => decide (m ≤ rr.ttl))
+  | _ => true
+
+/-- the record a cache lookup at time `now'` returns for the record `rr` stored at time `now`
+    (times in ns): same owner, type and data, class IN, the remaining TTL in whole seconds. -/
+def cachedRR (now now' : Nat) (rr : RR) : RR :=
+  { name := rr.name, rtype := rr.rtype, fields := rr.fields, rclass := 1,
+    ttl := min ((now + rr.ttl * NANOS - now') / NANOS) U32_MAX }
+
+/-- the context of a later resolution: the zones and the cache the earlier resolution left behind,
+    the clock at `now'`, an empty question stack. -/
+def laterCtx (st : St) (now' : Nat) : Ctx :=
+  { zones := st.ctx.zones, cache := st.ctx.cache, now := now', stack := [] }
+
+/-- The standing hypotheses on the TTLs for a second question asked at time `now'` after a first
+    resolution of `q` at time `now` along the path `R :: rest`: the clock did not go back, and the
+    glue of every server and every referral on the path have at least `m` seconds of TTL, of which
+    at least one full second is left at `now'`. -/
+structure UniFresh (U : Universe) (q : Question) (R : UEntry) (rest : List UEntry) (m now now' : Nat) : Prop where
+  mono : now ≤ now'
+  left : now' + NANOS ≤ now + m * NANOS
+  glue : ∀ E ∈ U, m ≤ E.glueTtl
+  ns : ∀ Y ∈ R :: rest, nsTtlOK m q Y = true
+
+
+/-- The standing hypotheses on a LATER question `q2` answered by the zone of the server `Z`, asked
+    when the cache holds the NS sets and addresses of the servers `rest` (the path of an earlier
+    question below the root server `R`) and records under the keys `K` (the earlier answers): an
+    ordinary question (not NS) the local zones know nothing about, not for the address of a server,
+    not one of the keys `K` (nor an alias cached under `K`); `Z` is a server of `rest` (the local
+    zones knowing no name servers for its zone) or the root server, and the deepest cached
+    delegation enclosing the name of `q2` (`warmMissK`). -/
+structure UniSibling (zs : Zones) (K : List (Name × Nat)) (R : UEntry) (rest : List UEntry) (Z : UEntry)
+    (q2 : Question) : Prop where
+  ok : QuestionOK q2
+  known : rtypeIsUnknown q2.qtype = false
+  notNS : q2.qtype ≠ RT_NS
+  qmiss : localMiss zs q2.name q2.qtype = true
+  notHost : isAddrQ q2 → ∀ E ∈ rest, q2.name ≠ E.host
+  fresh : (q2.name, q2.qtype) ∉ K ∧ (q2.name, RT_CNAME) ∉ K
+  start : (Z ∈ rest ∧ localMiss zs Z.apex RT_NS = true) ∨ Z = R
+  wf : Name.fromLabels Z.apex.labels = some Z.apex
+  warm : warmMissK zs rest K Z.apex.labels.length q2.name.labels = true
+
+
+/-- the `AAAA` host-address question `resolve_hostname_to_ip` asks in prefer-v4 mode. -/
+def uniHost6Q (host : Name) : Question := { name := host, qclass := CLASS_IN, qtype := RT_AAAA }
+
+
+/-! ## Referrals without glue: resolution walks
+
+    A WALK describes what the candidate loop does for a question `q` from the moment the reply of a
+    server `Y` is in: `Y` answers (`last`), or refers to a server `C` with glue (`glued`: `C` is
+    contacted next), or refers to `C` WITHOUT glue (`glueless`: `C`'s host is set aside, its address
+    is resolved recursively — a nested walk for the question `uniHostQ C.host`, started at the
+    deepest cached delegation `Y2` enclosing the host name — and then `C` is contacted).  Indices:
+    the question stack `S` of the loop (ending with `q`), the zones `V` whose NS sets and the servers
+    `G` whose addresses are cached when `Y`'s reply comes in, the exchanges `ex` that follow, the
+    fuel needed, `V'` / `G'` at the end, and the result. -/
+
+/-- side conditions of a referral with glue to `C`. -/
+structure GluedOK (zs : Zones) (K : List (Name × Nat)) (S : List Question) (q : Question) (C : UEntry) : Prop where
+  notHost : isAddrQ q → q.name ≠ C.host
+  miss : localMiss zs C.host RT_A = true
+  key : (C.host, RT_A) ∉ K
+  stack : uniHostQ C.host ∉ S
+  depth : S.length ≠ RECURSION_LIMIT
+
+/-- nothing is known locally about the host of `C` (a server referred to without glue): not an
+    address cached for a server of `G`, not in the local zones, not under a key of `K`, not a
+    question being worked on; the nesting depth allows one more question. -/
+structure HostUnknown (zs : Zones) (K : List (Name × Nat)) (G : List UEntry) (S : List Question) (q : Question)
+    (C : UEntry) : Prop where
+  notHost : isAddrQ q → q.name ≠ C.host
+  notG : ∀ E ∈ G, E.host ≠ C.host
+  missA : localMiss zs C.host RT_A = true
+  missAAAA : localMiss zs C.host RT_AAAA = true
+  keys : (C.host, RT_A) ∉ K ∧ (C.host, RT_AAAA) ∉ K ∧ (C.host, RT_CNAME) ∉ K
+  stack : uniHostQ C.host ∉ S ∧ uniHost6Q C.host ∉ S
+  depth : S.length + 1 < RECURSION_LIMIT
+  noNS : ∀ q0 ∈ S, q0.qtype ≠ RT_NS
+  ok : QuestionOK (uniHostQ C.host)
+
+/-- the nested resolution of the address of `C`'s host starts at `Y2`: the deepest zone whose NS set
+    is cached (`V`) that encloses the host name — its server's address being cached too (`G`) — or
+    the root hints. -/
+structure NestedStart (U : Universe) (zs : Zones) (K : List (Name × Nat)) (V G : List UEntry) (S : List Question)
+    (C Y2 : UEntry) : Prop where
+  mem : Y2 ∈ U
+  start : (Y2 ∈ V ∧ Y2 ∈ G ∧ localMiss zs Y2.apex RT_NS = true ∧ localMiss zs Y2.host RT_A = true ∧
+      (Y2.apex, RT_NS) ∉ K) ∨ (Y2.apex = Name.root ∧ RootHints zs Y2.host Y2.addr)
+  key : (Y2.host, RT_A) ∉ K
+  wf : Name.fromLabels Y2.apex.labels = some Y2.apex
+  sub : C.host.isSubdomainOf Y2.apex = true
+  warm : warmMissK zs V K Y2.apex.labels.length C.host.labels = true
+  stack : uniHostQ Y2.host ∉ S
+
+inductive UniWalk (gp : List RR → List RR) (U : Universe) (zs : Zones) (K : List (Name × Nat)) (m : Nat) :
+    List Question → Question → List UEntry → List UEntry → UEntry → List (UEntry × Question) → Nat →
+    List UEntry → List UEntry → ResolvedRecord → Prop
+  | last {S : List Question} {q : Question} {V G : List UEntry} {Z : UEntry} {res : ResolvedRecord}
+      (hexp : expectedAt Z q = some res) (hsays : ZoneSaysWF Z.zone q) :
+      UniWalk gp U zs K m S q V G Z [] 0 V G res
+  | glued {S : List Question} {q : Question} {V G : List UEntry} {Y C : UEntry} {ttl : Nat}
+      {ex : List (UEntry × Question)} {f : Nat} {V' G' : List UEntry} {res : ResolvedRecord}
+      (hC : C ∈ U) (hres : Y.zone.resolve q.name q.qtype = some (.delegation [C.nsRR ttl]))
+      (httl : 0 < ttl ∧ m ≤ ttl) (hdepth : Y.apex.labels.length < C.apex.labels.length)
+      (hsub : q.name.isSubdomainOf C.apex = true) (hglue : C.glueRR ∈ gp [C.nsRR ttl])
+      (hok : GluedOK zs K S q C)
+      (next : UniWalk gp U zs K m S q (V ++ [C]) (G ++ [C]) C ex f V' G' res) :
+      UniWalk gp U zs K m S q V G Y ((C, q) :: ex) (f + 2) V' G' res
+  | glueless {S : List Question} {q : Question} {V G : List UEntry} {Y C Y2 : UEntry} {ttl : Nat}
+      {exN : List (UEntry × Question)} {fN : Nat} {V1 G1 : List UEntry} {resH : ResolvedRecord}
+      {ex : List (UEntry × Question)} {f : Nat} {V' G' : List UEntry} {res : ResolvedRecord}
+      (hC : C ∈ U) (hres : Y.zone.resolve q.name q.qtype = some (.delegation [C.nsRR ttl]))
+      (httl : 0 < ttl ∧ m ≤ ttl) (hdepth : Y.apex.labels.length < C.apex.labels.length)
+      (hsub : q.name.isSubdomainOf C.apex = true) (hglue : gp [C.nsRR ttl] = [])
+      (hunk : HostUnknown zs K G S q C) (hstart : NestedStart U zs K (V ++ [C]) G (S ++ [uniHostQ C.host]) C Y2)
+      (nested : UniWalk gp U zs K m (S ++ [uniHostQ C.host]) (uniHostQ C.host) (V ++ [C]) G Y2 exN fN V1 G1 resH)
+      (haddr : resH.rrs ≠ [] ∧ ∀ rr ∈ resH.rrs, rr.fields = [.a C.addr] ∧ m ≤ rr.ttl)
+      (next : UniWalk gp U zs K m S q V1 (G1 ++ [C]) C ex f V' G' res) :
+      UniWalk gp U zs K m S q V G Y ((Y2, uniHostQ C.host) :: exN ++ (C, q) :: ex) (fN + f + 6) V' G' res
+
+
+/-- The standing hypotheses of the simplest glueless resolution: the referrals for `q` lead from the
+    root server `R` through `rest` (all with glue) to a parent that refers — WITHOUT glue — to the
+    zone of `Z2`, whose name server host lies elsewhere; the address of that host is resolved along
+    the (glued) path `Y2 :: rest2`, `Y2` being the deepest server of the first path whose zone
+    encloses the host name (or the root server).  Root hints and nothing else in the local zones;
+    `q` is an ordinary question (not NS), not for the address of a server involved; nothing is
+    known locally about `Z2`'s host; the servers of the second path are other hosts; all TTLs are at
+    least `m ≥ 1` seconds; the delays stay under 60 s and the paths under the fuel. -/
+structure UniStartGlueless (gp : List RR → List RR) (U : Universe) (zs : Zones) (m : Nat) (q : Question) (R : UEntry)
+    (rest : List UEntry) (Z2 : UEntry) (ttl2 : Nat) (Y2 : UEntry) (rest2 : List UEntry) : Prop where
+  root : R.apex = Name.root
+  hints : RootHints zs R.host R.addr
+  notNS : q.qtype ≠ RT_NS
+  qmiss : localMiss zs q.name q.qtype = true
+  cand : candMiss zs q.name.labels = true
+  glued : ∀ C ∈ rest ++ rest2, ∀ ttl, C.glueRR ∈ gp [C.nsRR ttl]
+  hostsMiss : ∀ C ∈ rest ++ rest2, localMiss zs C.host RT_A = true
+  notHost : isAddrQ q → ∀ C ∈ rest ++ [Z2], q.name ≠ C.host
+  glueless : gp [Z2.nsRR ttl2] = []
+  unknown : (∀ E ∈ rest, E.host ≠ Z2.host) ∧ localMiss zs Z2.host RT_A = true ∧ localMiss zs Z2.host RT_AAAA = true
+  hostOK : QuestionOK (uniHostQ Z2.host)
+  start : (Y2 ∈ rest ∧ localMiss zs Y2.apex RT_NS = true) ∨ Y2 = R
+  wf : Name.fromLabels Y2.apex.labels = some Y2.apex
+  warm : warmMissK zs (rest ++ [Z2]) [] Y2.apex.labels.length Z2.host.labels = true
+  nestedHosts : ∀ C ∈ Y2 :: rest2, C.host ≠ Z2.host ∧ q ≠ uniHostQ C.host
+  ttl : 1 ≤ m ∧ ∀ E ∈ U, m ≤ E.glueTtl
+  nsTtl : (∀ Y ∈ R :: rest, nsTtlOK m q Y = true) ∧ (∀ Y ∈ Y2 :: rest2, nsTtlOK m (uniHostQ Z2.host) Y = true)
+  time : totalDelay (R :: rest) + totalDelay (Y2 :: rest2) + Z2.delayMs < RESOLVE_TIMEOUT_MS
+  fuel : 2 * rest.length + 2 * rest2.length + 9 ≤ REC_FUEL
+
+/-! ## The example universe with a glueless zone
+
+    `UniEx.uniG`: as `UniEx.uni`, with a zone `z.e.` delegated from `e.` to the name server `k.y.e.`
+    (6.6.6.6), a host that lies in the zone `y.e.` — out of bailiwick: under the in-bailiwick glue
+    policy (`uniGlueB`) the referral from `e.` to `z.e.` carries the NS record and no glue.  `y.e.`
+    holds `k.y.e. A 6.6.6.6`; `z.e.` holds `w.z.e. A 7.7.7.7`. -/
+namespace UniEx
+
+def nZE : Name := ⟨[[122], [101], []], 5⟩                  -- z.e.
+def nWZE : Name := ⟨[[119], [122], [101], []], 7⟩          -- w.z.e.
+def nKYE : Name := ⟨[[107], [121], [101], []], 7⟩          -- k.y.e.
+
+def soaZE : SOA := ⟨nKYE, nKYE, 1, 2, 3, 4, 60⟩
+
+def zoneEG : Zone :=
+  { apex := nE, soa := some soaE,
+    records := ZNode.mk nE [(6, [⟨6, soaE.toFields, 60⟩])] none
+      [([110], ZNode.mk nNE [(1, [⟨1, [.a 33686018], 3600⟩])] none []),
+       ([120], ZNode.mk nXE [(2, [⟨2, [.name nMXE], 3600⟩])] none []),
+       ([121], ZNode.mk nYE [(2, [⟨2, [.name nMYE], 3600⟩])] none []),
+       ([122], ZNode.mk nZE [(2, [⟨2, [.name nKYE], 3600⟩])] none [])] }
+
+def zoneYEG : Zone :=
+  { apex := nYE, soa := some soaYE,
+    records := ZNode.mk nYE [(6, [⟨6, soaYE.toFields, 60⟩])] none
+      [([109], ZNode.mk nMYE [(1, [⟨1, [.a 67372036], 3600⟩])] none []),
+       ([119], ZNode.mk nWYE [(1, [⟨1, [.a 151587081], 300⟩])] none []),
+       ([107], ZNode.mk nKYE [(1, [⟨1, [.a 101058054], 3600⟩])] none [])] }
+
+def zoneZE : Zone :=
+  { apex := nZE, soa := some soaZE,
+    records := ZNode.mk nZE [(6, [⟨6, soaZE.toFields, 60⟩])] none
+      [([119], ZNode.mk nWZE [(1, [⟨1, [.a 117901063], 300⟩])] none [])] }
+
+def eEG : UEntry := { eE with zone := zoneEG }
+def eYEG : UEntry := { eYE with zone := zoneYEG }
+def eZE : UEntry := { zone := zoneZE, host := nKYE, addr := 101058054, glueTtl := 3600, delayMs := 25 }
+
+def uniG : Universe := [eRoot, eEG, eXE, eYEG, eZE]
+
+/-- IPv4-only resolver in front of `uniG`, the parents serving in-bailiwick glue only. -/
+def cfgG : RecCfg := uniCfgB uniG 53
+
+def qZ : Question := { name := nWZE, qtype := RT_A, qclass := CLASS_IN }   -- in the glueless zone
+def rrWZ : RR := ⟨nWZE, 1, [.a 117901063], 1, 300⟩
+def rrK : RR := ⟨nKYE, 1, [.a 101058054], 1, 3600⟩
+def soaRRZE : RR := ⟨nZE, 6, soaZE.toFields, 1, 60⟩
+
+end UniEx
+
+/-! ## A variant of `UniEx.uni` whose zone `x.e.` serves an RRset with two different TTLs -/
+namespace UniEx
+
+/-- `x.e.` with `w.x.e. A 5.6.7.8` (TTL 300) and `w.x.e. A 5.6.7.9` (TTL 100). -/
+def zoneXEP : Zone :=
+  { apex := nXE, soa := some soaXE,
+    records := ZNode.mk nXE [(6, [⟨6, soaXE.toFields, 60⟩])] none
+      [([109], ZNode.mk nMXE [(1, [⟨1, [.a 50529027], 3600⟩])] none []),
+       ([119], ZNode.mk nWXE [(1, [⟨1, [.a 84281096], 300⟩, ⟨1, [.a 84281097], 100⟩])] none [])] }
+
+def eXEP : UEntry := { eXE with zone := zoneXEP }
+def uniP : Universe := [eRoot, eE, eXEP, eYE]
+def cfgP : RecCfg := uniCfg uniP 53
+
+end UniEx
+
+/-! ## A glueless zone whose name server lies in another glueless zone
+
+    `UniEx.uniG2`: as `uniG`, with a zone `v.e.` delegated from `e.` to the name server `j.z.e.`
+    (8.8.8.8), a host in the zone `z.e.` — which is itself delegated without glue (to `k.y.e.` in
+    `y.e.`).  `z.e.` holds `j.z.e. A 8.8.8.8`; `v.e.` holds `w.v.e. A 9.9.9.1`. -/
+namespace UniEx
+
+def nVE : Name := ⟨[[118], [101], []], 5⟩                  -- v.e.
+def nWVE : Name := ⟨[[119], [118], [101], []], 7⟩          -- w.v.e.
+def nJZE : Name := ⟨[[106], [122], [101], []], 7⟩          -- j.z.e.
+def soaVE : SOA := ⟨nJZE, nJZE, 1, 2, 3, 4, 60⟩
+
+def zoneEG2 : Zone :=
+  { apex := nE, soa := some soaE,
+    records := ZNode.mk nE [(6, [⟨6, soaE.toFields, 60⟩])] none
+      [([110], ZNode.mk nNE [(1, [⟨1, [.a 33686018], 3600⟩])] none []),
+       ([120], ZNode.mk nXE [(2, [⟨2, [.name nMXE], 3600⟩])] none []),
+       ([121], ZNode.mk nYE [(2, [⟨2, [.name nMYE], 3600⟩])] none []),
+       ([122], ZNode.mk nZE [(2, [⟨2, [.name nKYE], 3600⟩])] none []),
+       ([118], ZNode.mk nVE [(2, [⟨2, [.name nJZE], 3600⟩])] none [])] }
+
+def zoneZE2 : Zone :=
+  { apex := nZE, soa := some soaZE,
+    records := ZNode.mk nZE [(6, [⟨6, soaZE.toFields, 60⟩])] none
+      [([119], ZNode.mk nWZE [(1, [⟨1, [.a 117901063], 300⟩])] none []),
+       ([106], ZNode.mk nJZE [(1, [⟨1, [.a 134744072], 3600⟩])] none [])] }
+
+def zoneVE : Zone :=
+  { apex := nVE, soa := some soaVE,
+    records := ZNode.mk nVE [(6, [⟨6, soaVE.toFields, 60⟩])] none
+      [([119], ZNode.mk nWVE [(1, [⟨1, [.a 151587073], 300⟩])] none [])] }
+
+def eEG2 : UEntry := { eE with zone := zoneEG2 }
+def eZE2 : UEntry := { eZE with zone := zoneZE2 }
+def eVE : UEntry := { zone := zoneVE, host := nJZE, addr := 134744072, glueTtl := 3600, delayMs := 5 }
+
+def uniG2 : Universe := [eRoot, eEG2, eXE, eYEG, eZE2, eVE]
+def cfgG2 : RecCfg := uniCfgB uniG2 53
+
+def qV : Question := { name := nWVE, qtype := RT_A, qclass := CLASS_IN }
+def rrWV : RR := ⟨nWVE, 1, [.a 151587073], 1, 300⟩
+def rrJ : RR := ⟨nJZE, 1, [.a 134744072], 1, 3600⟩
+
+end UniEx
+
 end Resolved
